@@ -63,6 +63,8 @@ pub trait VecOps<const N: usize>: Fields<Tracked> {
     /// `From<(T, .., T)>` on the tuple `(f(0), f(1), ..)`.
     fn from_tuple(f: &mut dyn FnMut(usize) -> Tracked) -> Self;
     fn from_iter_(it: &mut dyn Iterator<Item = Tracked>) -> Self;
+    /// `from_slice` needs `T: Default + Copy`, so it is exercised with plain `u32` elements.
+    fn from_slice_u32(s: &[u32]) -> Self::Ids;
     fn map_identity(self) -> Self;
     /// `map` with a closure that consumes each element and returns its id.
     fn map_consume(self) -> Self::Ids;
@@ -106,6 +108,7 @@ macro_rules! impl_vecops {
             fn from_iter_(it: &mut dyn Iterator<Item = Tracked>) -> Self {
                 <$V<Tracked> as std::iter::FromIterator<Tracked>>::from_iter(it)
             }
+            fn from_slice_u32(s: &[u32]) -> Self::Ids { <$V<u32>>::from_slice(s) }
             fn map_identity(self) -> Self { self.map(|t| t) }
             fn map_consume(self) -> Self::Ids { self.map(eat) }
             fn zip_(self, other: Self) -> Self::Pairs { self.zip(other) }
